@@ -59,7 +59,7 @@ def zero_rejecting_parsers(F):
         m = re.match(r"^(mqtt::packet::(v3_1_1|v5_0)::(\w+)::Generic\w+)::<PacketIdType>::parse$", f["path"])
         if not m:
             continue
-        ex = explore.Explorer(F, inline_pred=lambda ex, callee, info: callee.get("kind") == "Closure")
+        ex = explore.Explorer(F, inline_pred=lambda ex, callee, info: callee.get("kind") == "Closure" or explore.small_private_helper(callee))
         good = True
         nid = 0
         for p in ex.run(f["path"]):
@@ -71,7 +71,7 @@ def zero_rejecting_parsers(F):
                 if idb is not None and idb[0] == "agg" and idb[2] == "None":
                     continue
             nid += 1
-            if not any(e[0] == "call" and (e[1].endswith("Iterator>::all") or e[1].endswith("::is_zero")) and conn.truth(p, e) is False for e in p.effects):
+            if not C04.path_rejects_zero_id(F, p):
                 good = False
         if good and nid:
             out.add(m.group(1))
@@ -343,7 +343,15 @@ def discharge_special(F, o, interned, zrp, nonzero_props):
         return None
     # D4: automatic-response builder fails only because the id taken from a parsed packet would be zero
     if o.kind == "unwrap" and o.status == "fails":
-        alls = [e for e in p.effects if e[0] == "call" and e[1].endswith("Iterator>::all") and conn.truth(p, e) is True]
+        # the zero test in any of its spellings: all(b == 0) holds / any(b != 0) does not hold
+        alls = []
+        for e in p.effects:
+            if e[0] != "call" or not (e[1].endswith("Iterator>::all") or e[1].endswith("Iterator>::any")):
+                continue
+            zk = C04.zero_closure_kind(F, e)
+            tr = conn.truth(p, e)
+            if (e[1].endswith("::all") and zk == "Eq" and tr is True) or (e[1].endswith("::any") and zk == "Ne" and tr is False):
+                alls.append(e)
         for e in alls:
             s = repr(conn.expand_all(interned, e[3]))
             m = re.search(r"'(mqtt::packet::(?:v3_1_1|v5_0)::\w+::Generic\w+)::<PacketIdType>::packet_id'", s)
